@@ -288,9 +288,15 @@ class ASTRewriter(ast.NodeTransformer):
         return ast.Tuple(elts=[self.visit(el) for el in node.elts])
 
     def visit_AnnAssign(self, node):
-        node.value = self.visit(node.value) if node.value else node.value
-        self.env.set_type(node.target.id, node.annotation)
-        return node
+        if node.value is None or not isinstance(node.target, ast.Name):
+            return node
+
+        # target: T = value is rewritten as target = value is, the annotation stays on it
+        res = flatten(
+            [self.visit(ast.Assign(targets=[node.target], value=node.value))]
+        )
+        node.value = res[-1].value
+        return res[:-1] + [node]
 
     def visit_FunctionDef(self, node):
         for x in node.args.args:
